@@ -65,3 +65,25 @@ Section Errors.
   | BE_global r t e : add_all_files empty_creg srcs = COk r -> In t (r_templates (cr_reg r)) ->
       set_globals_template ko (bg_map bg) t = Some e -> bundle_error (EGlobalErr (t_name t) e).
 End Errors.
+
+(* ---- compiling again from trees that Registry.Add has already rewritten ---- *)
+
+(* the {@param} nodes at the head of a template body *)
+Definition leading_headers (t : node) : list node :=
+  match t with NTemplate _ _ (NList _ nodes) _ _ => fst (span_headers nodes) | _ => [] end.
+Definition is_soydoc (n : node) : bool := match n with NSoyDoc _ _ => true | _ => false end.
+(* every template with header params has a SoyDoc node directly in front of it
+   (the node into which Add moves the params) *)
+Fixpoint headers_documented (prev : option node) (body : list node) : bool :=
+  match body with
+  | [] => true
+  | n :: r =>
+      (match leading_headers n with
+       | [] => true
+       | _ :: _ => match prev with Some pv => is_soydoc pv | None => false end
+       end) && headers_documented (Some n) r
+  end.
+Definition src_documented (s : src) : bool :=
+  match s with SrcOk f => headers_documented None (sfile_body f) | SrcParseErr _ _ => true end.
+(* the second compilation sees the source as it was, or as a successful Add left it *)
+Definition readd_variant (s s' : src) : Prop := s' = s \/ s' = rewritten_src s.
